@@ -156,6 +156,37 @@ CLAIMED = {
         "nodes and end times, nothing is handed off after the root is rejected, and the failing "
         "function runs again in every later execution.",
         SIM_NOTE, "DESIGN.md §4 C12"),
+    "C30": (
+        "modelsim", "exploration",
+        "seeded file-operation histories on a real tmpfs with a simulated mtime clock (advance, "
+        "stall, jump back) and files vanishing underneath, checked after every operation "
+        "against freshly computed hashes",
+        "Histories of <= 20 operations per file value class (write/append through File.open, "
+        "copy_to, stage/unstage, Dir.mkdir/rmdir, external remove/rewrite/touch, update_hash, "
+        "pickle round trip); after every redun-mediated write the hash must equal a fresh "
+        "value's hash, is_valid must equal (recorded == fresh), content hashes must change iff "
+        "bytes change, and hashing a missing path must not raise.",
+        "Local filesystem only; the simulated clock sets mtimes of external writes.",
+        "DESIGN.md §4 C30"),
+    "C31": (
+        "modelsim", "exploration",
+        "seeded record/restart/read histories with injected storage faults (lost and torn "
+        "offloaded objects) and configuration changes, against a hash->value model",
+        "Histories of <= 14 operations over backend configurations (no store / value store with "
+        "different thresholds / max_value_size; FileCache-typed values); after every operation "
+        "every known hash is read back: present values read back equal with the same hash, lost "
+        "objects read as absent, torn objects never as a different value, oversize values are "
+        "rejected.",
+        "Value store and file cache on local tmpfs.", "DESIGN.md §4 C31"),
+    "C37": (
+        "modelsim", "exploration",
+        "seeded define/redefine/wrap histories through the public API, registry invariants "
+        "checked after every operation",
+        "Histories of <= 15 definitions (plain, versioned, explicit name collisions, wraps_task "
+        "once and twice, redefinition of wrapped names) loaded as real modules; task_hashes must "
+        "equal the hashes of the held tasks, every task must be found under its full name, and "
+        "wrapper chains must point to registered inner tasks in the wrapper namespace.",
+        "Single-threaded module imports.", "DESIGN.md §4 C37"),
 }
 
 NOT_APPLICABLE = {
